@@ -3,6 +3,8 @@
 (* The LANGUAGE of (extended) HCTL formulae, written from README.md:       *)
 (*   Lex      characters -> nested token sequence (or rejection)           *)
 (*   Parse    the documented grammar, by precedence climbing               *)
+(*   ImplLex  the tokenizing ALGORITHM of tokenizer.rs (character look-     *)
+(*            ahead), for design-level comparison with Lex                 *)
 (*   ImplParse the parsing ALGORITHM of parser.rs (split at the first      *)
 (*            operator of each level), for design-level comparison         *)
 (*   Render / Height  canonical fully parenthesised text and tree height   *)
@@ -116,6 +118,80 @@ LexSeq(cs, i0, top, ext) ==
               ELSE Cons(TAtom("prop", w), e)
 
 Lex(cs, ext) == LET r == LexSeq(cs, 1, TRUE, ext) IN IF r.ok THEN [ok |-> TRUE, toks |-> r.toks] ELSE LexFail
+
+(* ------------------------------------------------------------ ImplLex *)
+(* The ALGORITHM of tokenizer.rs (try_tokenize_recursive, collect_name,      *)
+(* collect_var_and_dom_from_operator): one pass with one character of        *)
+(* look-ahead; E / A followed by X F G U W is an operator unless a name      *)
+(* character follows, in which case the whole run is a proposition; 3 / V    *)
+(* are quantifiers unless a name character follows.  MC_Lex compares it with *)
+(* the word-based definition Lex on every string up to a length bound.       *)
+TempLetters == {"X", "F", "G", "U", "W"}
+ICollectName(cs, i) == WordEnd(cs, i)            \* collect_name: advance over name characters
+IVarDom(cs, i0, op, domains) ==                  \* collect_var_and_dom_from_operator
+  LET i == SkipWs(cs, i0) IN
+  IF ~Is(cs, i, "{") THEN LexFail
+  ELSE LET e == ICollectName(cs, i + 1) IN
+       IF e = i + 1 THEN LexFail                           \* empty variable name
+       ELSE IF ~Is(cs, e, "}") THEN LexFail
+       ELSE LET j == SkipWs(cs, e + 1) name == TextOf(cs, i + 1, e) IN
+            IF domains /\ Is(cs, j, "i")
+            THEN IF ~Is(cs, j + 1, "n") THEN LexFail
+                 ELSE LET p == SkipWs(cs, j + 2) IN
+                      IF ~Is(cs, p, "%") THEN LexFail
+                      ELSE LET d == ICollectName(cs, p + 1) IN
+                           IF d = p + 1 THEN LexFail
+                           ELSE IF ~Is(cs, d, "%") THEN LexFail
+                           ELSE LET q == SkipWs(cs, d + 1) IN
+                                IF Is(cs, q, ":") THEN [ok |-> TRUE, tok |-> THyb(op, name, TextOf(cs, p + 1, d)), i |-> q + 1]
+                                ELSE LexFail
+            ELSE IF Is(cs, j, ":") THEN [ok |-> TRUE, tok |-> THyb(op, name, ""), i |-> j + 1]
+            ELSE LexFail
+RECURSIVE ILexSeq(_, _, _, _)
+ILexSeq(cs, i, top, ext) ==
+  IF i > Len(cs) THEN (IF top THEN [ok |-> TRUE, toks |-> <<>>, i |-> i] ELSE LexFail)
+  ELSE
+  LET c == cs[i].c
+      Cons(tok, j) == LET r == ILexSeq(cs, j, top, ext) IN
+                      IF r.ok THEN [ok |-> TRUE, toks |-> <<tok>> \o r.toks, i |-> r.i] ELSE LexFail
+      Hyb(op, j, domains) == LET h == IVarDom(cs, j, op, domains) IN IF h.ok THEN Cons(h.tok, h.i) ELSE LexFail
+      NameFrom(j) == LET e == ICollectName(cs, j) IN Cons(TAtom("prop", TextOf(cs, i, e)), e)
+      \* E / A: the next character is a temporal letter
+      Temporal(first) ==
+        LET c2 == cs[i + 1].c IN
+        IF IsName(cs, i + 2) THEN NameFrom(i + 2)           \* part of a longer proposition name
+        ELSE IF c2 \in {"X", "F", "G"} THEN Cons(TUn(first \o c2), i + 2) ELSE Cons(TBin(first \o c2), i + 2)
+  IN
+  IF cs[i].k = "s" THEN ILexSeq(cs, i + 1, top, ext)
+  ELSE
+  CASE c = "~" -> Cons(TUn("not"), i + 1)
+    [] c = "&" -> Cons(TBin("and"), i + 1)
+    [] c = "|" -> Cons(TBin("or"), i + 1)
+    [] c = "^" -> Cons(TBin("xor"), i + 1)
+    [] c = "=" -> IF Is(cs, i + 1, ">") THEN Cons(TBin("imp"), i + 2) ELSE LexFail
+    [] c = "<" -> IF Is(cs, i + 1, "=") THEN (IF Is(cs, i + 2, ">") THEN Cons(TBin("iff"), i + 3) ELSE LexFail) ELSE LexFail
+    [] c = ">" -> LexFail
+    [] c \in {"E", "A"} /\ i + 1 <= Len(cs) /\ cs[i + 1].c \in TempLetters -> Temporal(c)
+    [] c = "!" -> Hyb("bind", i + 1, ext)
+    [] c = "3" /\ ~IsName(cs, i + 1) -> Hyb("exists", i + 1, ext)
+    [] c = "V" /\ ~IsName(cs, i + 1) -> Hyb("forall", i + 1, ext)
+    [] c = "@" -> Hyb("jump", i + 1, FALSE)
+    [] c = "\\" -> LET e == ICollectName(cs, i + 1) w == TextOf(cs, i + 1, e) IN
+                   IF w = "exists" THEN Hyb("exists", e, ext)
+                   ELSE IF w = "forall" THEN Hyb("forall", e, ext)
+                   ELSE IF w = "bind" THEN Hyb("bind", e, ext)
+                   ELSE IF w = "jump" THEN Hyb("jump", e, FALSE)
+                   ELSE LexFail
+    [] c = ")" -> IF ~top THEN [ok |-> TRUE, toks |-> <<>>, i |-> i + 1] ELSE LexFail
+    [] c = "(" -> LET g == ILexSeq(cs, i + 1, FALSE, ext) IN IF g.ok THEN Cons(TGrp(g.toks), g.i) ELSE LexFail
+    [] c = "{" -> LET e == ICollectName(cs, i + 1) IN
+                  IF e = i + 1 THEN LexFail
+                  ELSE IF Is(cs, e, "}") THEN Cons(TAtom("var", TextOf(cs, i + 1, e)), e + 1) ELSE LexFail
+    [] c = "%" /\ ext -> LET e == ICollectName(cs, i + 1) IN
+                  IF e = i + 1 THEN LexFail
+                  ELSE IF Is(cs, e, "%") THEN Cons(TAtom("wild", TextOf(cs, i + 1, e)), e + 1) ELSE LexFail
+    [] OTHER -> IF cs[i].k = "n" THEN NameFrom(i + 1) ELSE LexFail
+ImplLex(cs, ext) == LET r == ILexSeq(cs, 1, TRUE, ext) IN IF r.ok THEN [ok |-> TRUE, toks |-> r.toks] ELSE LexFail
 
 (* ---------------------------------------------------------------- trees *)
 Rej == [op |-> "REJECT"]
